@@ -9,7 +9,7 @@ CONSTANTS
   Script = FALSE
   WithEnv = FALSE
 INIT Init
-NEXT Next
+NEXT NextQ
 VIEW ViewNoOut
 CONSTRAINT Depth6
 INVARIANTS DirtyLoaded EncHeld
